@@ -26,7 +26,8 @@ SUPPORT = {
     'C06': [('C11', ['C11.R4'], None,
              'the retrieval order is the order of becoming ready: each delay timer promotes its own item')],
     'C08': [('C04', ['C04.R1'], None, 'an item leaves late only while no permitted out-edge can accept it: the waiting put reservation must be woken'),
-            ('C11', ['C11.R1'], None, 'the node decides "able to accept" by can_put()')],
+            ('C11', ['C11.R1'], None, 'the node decides "able to accept" by can_put()'),
+            ('C11', ['C11.R5'], ('get_delay',), 'the delay is drawn exactly once per item only if every get_delay() call consults its source')],
     'C09': [('C11', ['C11.R1'], None, 'push-or-drop is decided by can_put(): it must agree with the grant condition')],
     'C10': [('C04', ['C04.R1'], None, 'work is taken / delivered at once only if the store wakes the waiting reservation at that instant'),
             ('C11', ['C11.R1'], None, 'the node decides "has room / has an item" by can_put() / can_get()')],
@@ -43,8 +44,7 @@ SUPPORT = {
             ('C03', ['C03.R1'], ('nodes/splitter.py', 'nodes/combiner.py'), 'every item taken by a splitter / combiner is emitted or packed on every path')],
     'C20': [('C01', ['C01.O0', 'C01.O1'], None, 'stores raise RuntimeError on overflow: a grant beyond capacity crashes the run'),
             ('C06', ['C06.R4'], None, 'a node that finds no granted token after its wait raises'),
-            ('C15', ['C15.R7'], None, 'a selector wired to the wrong side yields an out-of-range index (AssertionError)'),
-            ('C14', ['C14.R6'], None, 'the fleet activation process assumes the batch it was woken for is still there')],
+            ('C15', ['C15.R7'], None, 'a selector wired to the wrong side yields an out-of-range index (AssertionError)')],
 }
 
 
